@@ -104,7 +104,79 @@ func (x *Exec) atSite(s *State, in ssa.Instruction) bool {
 	return ok
 }
 
+// call executes a call and then records the error it reported, if its last
+// result is an error (errDropped checks what becomes of it).
 func (x *Exec) call(s *State, in ssa.Instruction, c *ssa.CallCommon, result ssa.Value) bool {
+	ok := x.call1(s, in, c, result)
+	if !ok || result == nil || s.dead {
+		return ok
+	}
+	res := c.Signature().Results()
+	if f := c.StaticCallee(); f != nil {
+		switch funcKey(f) {
+		case "fmt.Errorf", "errors.New": // constructors: the value is the caller's own error
+			return ok
+		}
+	}
+	if n := res.Len(); n > 0 && isErrorType(res.At(n-1).Type()) {
+		if v, has := s.env[result]; has {
+			ev := v
+			if n > 1 {
+				if len(v.F) != n {
+					return ok
+				}
+				ev = v.F[n-1]
+			}
+			if kindOf(ev.T) == kIface && len(ev.F) == 2 {
+				if s.errSeen == nil {
+					s.errSeen = map[string]string{}
+				}
+				s.errSeen[x.inlinePre+x.sites[in]] = eq(ev.F[0].S, "0")
+			}
+		}
+	}
+	return ok
+}
+
+// errDropped: where a function reports success (a nil error result) or goes
+// round a loop again, every error a callee reported on the way must have been
+// nil — otherwise a fault was swallowed (property C14). A contract names the
+// places where an error is tolerated BY DESIGN: "tolerates <site> // reason".
+func (x *Exec) errDropped(s *State, resultNil string, where string, in ssa.Instruction) {
+	if len(s.errSeen) == 0 || os.Getenv("GOWP_NOERRPROP") != "" {
+		return
+	}
+	con := x.con
+	if x.rootCon != nil {
+		con = x.rootCon
+	}
+	var sites []string
+	for k := range s.errSeen {
+		sites = append(sites, k)
+	}
+	sort.Strings(sites)
+	for _, site := range sites {
+		cond := s.errSeen[site]
+		if cond == "true" {
+			continue
+		}
+		tolerated := false
+		if con != nil {
+			for _, t := range con.Tolerates {
+				if t == site || (strings.HasSuffix(t, "*") && strings.HasPrefix(site, strings.TrimSuffix(t, "*"))) {
+					tolerated = true
+				}
+			}
+		}
+		if tolerated {
+			continue
+		}
+		o := x.ob("errdrop", site, "the error reported by "+site+" is not swallowed ("+where+")", in)
+		s.check(o, imp(resultNil, cond))
+	}
+}
+
+func (x *Exec) call1(s *State, in ssa.Instruction, c *ssa.CallCommon, result ssa.Value) bool {
 	if !x.atSite(s, in) {
 		return false
 	}
@@ -139,6 +211,12 @@ func (x *Exec) call(s *State, in ssa.Instruction, c *ssa.CallCommon, result ssa.
 			args = append(args, fv.Fn.Bindings...)
 		} else {
 			key = "funcvalue:" + c.Value.Name()
+			// the function value a call returned: contract under <callee>#result
+			if cr, ok := c.Value.(*ssa.Call); ok {
+				if sc := cr.Common().StaticCallee(); sc != nil {
+					key = funcKey(sc) + "#result"
+				}
+			}
 			// a package-level variable of function type: contract under the variable's name
 			if u, ok := c.Value.(*ssa.UnOp); ok {
 				if g, ok := u.X.(*ssa.Global); ok {
@@ -1047,18 +1125,19 @@ func (x *Exec) inlineCall(s *State, in ssa.Instruction, fn *ssa.Function, args [
 		ipdomDone, retCov  bool
 		rootFn             *ssa.Function
 		rootParams         map[string]Value
+		rootCon            *Contract
 		inlinePre          string
 		inlineCap          *[]inlineRet
 	}
-	sv := saved{x.fn, x.con, x.pkg, x.loops, x.params, x.sites, x.siteAlias, x.ai, x.allocPos, x.ipdom, x.ipdomDone, x.retCover, x.rootFn, x.rootParams, x.inlinePre, x.inlineCap}
+	sv := saved{x.fn, x.con, x.pkg, x.loops, x.params, x.sites, x.siteAlias, x.ai, x.allocPos, x.ipdom, x.ipdomDone, x.retCover, x.rootFn, x.rootParams, x.rootCon, x.inlinePre, x.inlineCap}
 	restore := func() {
 		x.fn, x.con, x.pkg, x.loops, x.params, x.sites, x.siteAlias, x.ai, x.allocPos = sv.fn, sv.con, sv.pkg, sv.loops, sv.params, sv.sites, sv.siteAlias, sv.ai, sv.allocPos
-		x.ipdom, x.ipdomDone, x.retCover, x.rootFn, x.rootParams, x.inlinePre, x.inlineCap = sv.ipdom, sv.ipdomDone, sv.retCov, sv.rootFn, sv.rootParams, sv.inlinePre, sv.inlineCap
+		x.ipdom, x.ipdomDone, x.retCover, x.rootFn, x.rootParams, x.rootCon, x.inlinePre, x.inlineCap = sv.ipdom, sv.ipdomDone, sv.retCov, sv.rootFn, sv.rootParams, sv.rootCon, sv.inlinePre, sv.inlineCap
 		x.inlineDepth--
 	}
 	site := x.sites[in]
 	if x.rootFn == nil {
-		x.rootFn, x.rootParams = x.fn, x.params
+		x.rootFn, x.rootParams, x.rootCon = x.fn, x.params, x.con
 	}
 	x.inlinePre = sv.inlinePre + "in:" + site + ":"
 	x.fn, x.con, x.pkg = fn, nil, fn.Pkg.Pkg
